@@ -100,6 +100,9 @@ func runERRFLOW(c *Ctx) {
 			}
 			if ok, ret := errorPropagated(fn, call, errV); ok {
 				c.OK(pos, what, "no nil-error return is reachable on its non-nil edge", false)
+			} else if overwrittenAt != nil {
+				c.Violation(fn, pos, "error of "+name+" dropped",
+					fmt.Sprintf("%s can go round its loop and call %s again while the error of the previous call is still pending: that error is overwritten and never reported", ir.FuncName(fn), name))
 			} else {
 				c.Violation(fn, P.InstrPos(ret), "error of "+name+" dropped",
 					fmt.Sprintf("%s can return a nil error although %s failed (return at %s)", ir.FuncName(fn), name, P.InstrPos(ret)))
